@@ -25,7 +25,7 @@ func genSegment(p *PRNG) string {
 	case 1:
 		return "s"
 	case 2:
-		return PickOne(p, []string{"home", "pepe.jpg", "Ünïcödé", "日本語", " ", ".", "..", "100%", "a%%b.txt", "My%20Report.pdf", "%s%d%v", "%!(NOVERB)"})
+		return PickOne(p, []string{"home", "pepe.jpg", "Ünïcödé", "日本語", " ", ".", "..", "100%", "a%%b.txt", "My%20Report.pdf", "%s%d%v", "%!(NOVERB)", "2024\\report.txt", "a\\b", "\\", "c:\\dir"})
 	case 3:
 		return string(p.Bytes(1 + p.Intn(6))) // arbitrary bytes (may contain '/', split by the code)
 	case 4:
@@ -91,7 +91,11 @@ func runC20(r *RunCtx) error {
 			}
 			d2 := map[string]interface{}{"fn": "MerklePath", "called_just_before_hex": hex.EncodeToString([]byte(path)), "path_hex": hex.EncodeToString([]byte(p2)), "got": got2, "from_scratch": ref}
 			if got2 != ref {
-				r.Finding("C20/address-depends-on-earlier-call", "MerklePath(q) called right after MerklePath(p), where q starts with the characters of p, is not the address of q's own segment sequence", d2)
+				sig, what := "C20/address-not-the-fold-of-its-segments", "MerklePath(q) is not sha256-fold of q's own '/'-separated segments"
+				if fttypes.MerklePath(p2) == ref { // asked again, without the other path in between, the answer is right
+					sig, what = "C20/address-depends-on-earlier-call", "MerklePath(q) called right after MerklePath(p), where q starts with the characters of p, is not the address of q's own segment sequence (asked again it is)"
+				}
+				r.Finding(sig, what, d2)
 			}
 			r.Case("fn", fmt.Sprintf("MPath %s %s", cStr(p2), cStr(got2)), d2)
 			r.Count("mp:"+p2, true)
